@@ -179,6 +179,17 @@ CHECKS = {
         ref="3/C17",
         technique="deterministic simulation: Byzantine authenticated sender + resource monitors (zlib output counter seam, tracemalloc) during the run",
     ),
+    "C18": dict(
+        level="exploration",
+        text=("histories of N encryptions (same key, equal header values, fresh header object) per (alg, enc, serialisation) "
+              "cell under three entropy configurations - prng seam (labelled unique draws, provenance as evidence), real CSPRNG, "
+              "and real CSPRNG across 3-4 fresh interpreter processes whose outputs are merged - plus histories of key "
+              "generations; history oracle: pairwise distinct and exactly sized IV / CEK (recovered by the reference peer) / "
+              "GCM-KW iv / p2s, epk distinct and on the recipient's curve, default p2c >= 1000, every bit position takes both "
+              "values over >= 128 samples."),
+        ref="3/C18",
+        technique="deterministic simulation: entropy seam + multi-process histories checked by a history oracle (distinctness, sizes, bit coverage)",
+    ),
     "C20": dict(
         level="exploration",
         text=("T = 2..32 real caller threads run operations from a 70-entry catalogue over one shared world (eagerly and lazily "
